@@ -42,9 +42,8 @@ func SingleInitializer(p StandardCodeFormat, a Argument) (Instructions, Register
 	stackEnd := uint32(1<<32 - 2*ZZ - ZI)
 	stackStart := stackEnd - P(int(s))
 	argumentStart := uint32(1<<32 - ZZ - ZI)
-	// argumentEnd := argumentStart + uint32(len(a))
 	argumentEnd := argumentStart + uint32(len(a))
-	argumentPadding := argumentEnd + P(len(a))
+	argumentPadding := argumentStart + P(len(a))
 
 	mem := Memory{
 		Pages:       make(map[uint32]*Page),
